@@ -3296,7 +3296,8 @@ class Any(OctetString):
             self._tagMap = tagmap.TagMap(
                 {self.tagSet: self},
                 {eoo.endOfOctets.tagSet: eoo.endOfOctets},
-                self
+                # only untagged ANY matches whatever tag comes
+                None if self.tagSet else self
             )
 
             return self._tagMap
